@@ -159,6 +159,8 @@ fn c07_cfg(rng: &mut Rng) -> Cfg {
         fs_seed: rng.next_u64(),
         capacity: None,
         dio_align: None,
+        rw_modes: false,
+        io_err: 0.0,
     }
 }
 
